@@ -100,7 +100,7 @@ def handle (inp out : Sexp) : CaseResult :=
   | .list [.atom "expand-error"] =>
     let ok := out == Sexp.list [.atom "err"]
     { agree := ok, specOk := ok, nontrivial := false, tags := ["expand-error"], detail := s!"impl={out}" }
-  | .list [.atom "simp", .list selfFrames, eS] =>
+  | .list [.atom "simp", .atom handlerName, .list selfFrames, eS] =>
     match decodeAll pair selfFrames, decodeProg eS with
     | some selfFrames, some e =>
       match out with
@@ -124,7 +124,23 @@ def handle (inp out : Sexp) : CaseResult :=
             | .list [.list (.atom "builderr" :: .atom "extern" :: _), _] => true
             | _ => false
           let schedOk := normSched schedE == normSched schedS || expandedInvalidExtern
+          -- idempotent, equal to the program rebuilt from its own listing (used-qubit cache included), and
+          -- the same on a second call
           let idem := idem == "true"
+          -- names that occur as keys of two different definition kinds (a change that confuses the name
+          -- spaces shows only then)
+          let names := fun (l : List (String × String)) => l.map (·.1)
+          let frameNames := e.frames.map (fun f => (f.1.splitOn "\"").getD 1 "")
+          let kinds : List (List String) :=
+            [names e.waveforms, e.externs.filterMap (·.1), names e.gates, names e.circuits, names e.regions, frameNames]
+          let usedNames := e.body.filterMap (·.waveform) ++ e.body.filterMap (·.call)
+          let sharedUsed := usedNames.any fun n => (kinds.filter (·.contains n)).length ≥ 2
+          let definedWfWithDuration := e.body.any fun i => match i.waveform with
+            | some w => (names e.waveforms).contains w && (i.text.splitOn "duration:").length > 1
+            | none => false
+          let definedWfInvoked := e.body.any fun i => match i.waveform with
+            | some w => (names e.waveforms).contains w
+            | none => false
           let removedF := e.frames.length - s.frames.length
           let removedW := e.waveforms.length - s.waveforms.length
           let removedX := e.externs.length - s.externs.length
@@ -141,11 +157,16 @@ def handle (inp out : Sexp) : CaseResult :=
             | .list [.list (.atom "blocks" :: bs), _] => bs.length
             | _ => 0
           let tags :=
-            ["ok", schedKind, s!"blocks{min nblocks 4}", s!"body{min e.body.length 8}",
+            ["ok", s!"handler-{handlerName}", schedKind, s!"blocks{min nblocks 4}", s!"body{min e.body.length 8}",
              s!"frames-removed{min removedF 4}", s!"frames-kept{min s.frames.length 4}",
              s!"waveforms-removed{min removedW 3}", s!"externs-removed{min removedX 3}",
              s!"cals{min e.calibrations.length 4}"] ++
             (if blockedOnlyDropped then ["blocked-only-frame-dropped"] else []) ++
+            (if sharedUsed then ["used-name-shared-across-kinds"] else []) ++
+            (if definedWfWithDuration then ["defined-waveform-with-duration-arg"] else []) ++
+            (if definedWfWithDuration && schedKind == "sched-ok" then ["sched-ok-defined-waveform-with-duration-arg"] else []) ++
+            (if definedWfInvoked && schedKind == "sched-ok" then ["sched-ok-duration-from-kept-waveform"] else []) ++
+            (if e.externs.any (fun x => (((x.2.splitOn "\"").headD "").splitOn " ").length > 4) then ["multi-arg-extern"] else []) ++
             (if expandedInvalidExtern then ["expanded-invalid-extern"] else []) ++
             (if e.externs.any (fun x => x.1.isNone) then ["nameless-extern"] else []) ++
             (if !sameAvail then ["avail-differs"] else []) ++
